@@ -33,8 +33,8 @@ var importSwap = map[string][2]string{
 // Stats counts rewritten sites.
 type Stats struct {
 	Files, Go, Send, Recv, Select, RangeChan, RangeMap, Close, Imports, Knobs, Buggify int
-	PtrKeyMaps                                                                      []string
-	Warnings                                                                        []string
+	PtrKeyMaps                                                                         []string
+	Warnings                                                                           []string
 }
 
 func (s *Stats) Add(o Stats) {
@@ -64,11 +64,11 @@ type BuggifySite struct {
 }
 
 type Options struct {
-	Exempt   func(pkgPath string) bool // packages not rewritten (the simulator itself)
-	InScope  func(pkgPath string) bool
-	Knobs    []Knob
-	Buggify  []BuggifySite
-	RelRoot  string // paths in site strings are relative to this
+	Exempt  func(pkgPath string) bool // packages not rewritten (the simulator itself)
+	InScope func(pkgPath string) bool
+	Knobs   []Knob
+	Buggify []BuggifySite
+	RelRoot string // paths in site strings are relative to this
 }
 
 type rewriter struct {
@@ -572,8 +572,8 @@ func Instrument(dir string, env []string, patterns []string, opts *Options, log 
 	cfg := &packages.Config{
 		Mode: packages.NeedName | packages.NeedFiles | packages.NeedCompiledGoFiles | packages.NeedImports |
 			packages.NeedTypes | packages.NeedSyntax | packages.NeedTypesInfo | packages.NeedModule | packages.NeedDeps,
-		Dir: dir,
-		Env: env,
+		Dir:       dir,
+		Env:       env,
 		ParseFile: nil,
 	}
 	_ = cfg
